@@ -40,9 +40,10 @@ def definition(lang):
                 "action": e("ctx().M_action"),
                 "input": {"x": e("ctx().M_input")},
                 "retry": {"when": e("ctx().M_rwhen and failed()"), "count": e("ctx().M_rcount"), "delay": e("ctx().M_rdelay")},
-                "next": [{"when": e("ctx().M_when and succeeded()"), "publish": [{"p": e("ctx().M_pub")}], "do": "t2"}],
+                "next": [{"when": e("ctx().M_when and succeeded()"), "publish": [{"p": e("ctx().M_pub")}], "do": ["t2", "t3"]}],
             },
             "t2": {"with": {"items": e("ctx().M_items"), "concurrency": e("ctx().M_conc")}, "action": "core.echo", "input": {"message": e("item()")}},
+            "t3": {"action": "core.noop"},
         },
         "output": [{"o": e("ctx().M_out")}],
     }
@@ -83,7 +84,7 @@ def get_def(lang):
     return SPECS[lang]
 
 
-FAULT = {"mark": None, "kind": 0, "nth": 0, "seen": 0, "fired": False, "lang": "yaql"}
+FAULT = {"mark": None, "kind": 0, "nth": 0, "seen": 0, "fired": False, "lang": "yaql", "persistent": False}
 _real = expr_base.evaluate
 
 
@@ -91,7 +92,7 @@ def faulty(statement, data=None):
     m = FAULT["mark"]
     if m is not None and isinstance(statement, str) and m in statement and ("<%" in statement or "{{" in statement):
         FAULT["seen"] += 1
-        if FAULT["seen"] - 1 == FAULT["nth"]:
+        if FAULT["seen"] - 1 == FAULT["nth"] or (FAULT["persistent"] and FAULT["seen"] - 1 > FAULT["nth"]):
             FAULT["fired"] = True
             if FAULT["kind"] == 0:
                 if FAULT["lang"] == "yaql":
@@ -130,15 +131,21 @@ class C11Contained(Monitor):
     def on_crash(self, env, data):
         self.after_call(env, "deserialize")
 
+    def on_rerun(self, env, names, rejected, before):
+        # an accepted rerun legitimately leaves the failed status and removes the error entries of
+        # the tasks it reruns; the clauses apply again from the next failing evaluation on
+        if rejected is None and env.status() not in (S.FAILED, S.CANCELED):
+            FAULT["fired"] = False
 
-def faults(ch, ctx, lang, mark, steps=5, twin=False, control=None, order=False):
+
+def faults(ch, ctx, lang, mark, steps=5, twin=False, control=None, order=False, rerun=None):
     wf = get_def(lang)
-    FAULT.update(mark=mark, kind=0, nth=0, seen=0, fired=False, lang=lang)
+    FAULT.update(mark=mark, kind=0, nth=0, seen=0, fired=False, lang=lang, persistent=bool(rerun))
     if mark is not None:
         if mark in INT_POS or mark == "M_items":
             FAULT["kind"] = 1 if ch.flag("wrong_type") else 0
         FAULT["nth"] = 1 if ch.flag("second_evaluation") else 0
-    env = Env(ch, wf, "C11", monitors=[C11Contained()], policy=Policy(steps=steps, order=order, control=control, crash="bits", crash_max=0, crash_init=True))
+    env = Env(ch, wf, "C11", monitors=[C11Contained()], policy=Policy(steps=steps, order=order, control=control, crash="bits", crash_max=0, crash_init=True, rerun=rerun, rerun_steps=2, rerun_order=False))
     env.counters = ctx["counters"]
     expr_base.evaluate = faulty
     try:
@@ -239,6 +246,11 @@ def obligations(tier):
             if tier == "thorough":
                 params.update(steps=7, control="either", order=True)
             o = ob("C11", "e2c.%s.%s" % (lang, m), "vt.harness.C11:faults", params, timeout=600 if tier == "quick" else 3600)
+            o["antecedents"] = ["c11_fault_fired"]
+            obs.append(o)
+    for lang in ("yaql", "jinja"):
+        for m in ("M_action", "M_input", "M_delay", "M_items", "M_when", "M_pub", "M_out"):
+            o = ob("C11", "e2c.rerun.%s.%s" % (lang, m), "vt.harness.C11:faults", {"lang": lang, "mark": m, "steps": 4, "rerun": "default"}, timeout=600)
             o["antecedents"] = ["c11_fault_fired"]
             obs.append(o)
     for lang in ("yaql", "jinja"):
